@@ -88,3 +88,113 @@ def selftest():
     M = delay_operator(4, F(1, 2))
     assert np.allclose(np.asarray(M @ M, complex), np.asarray(delay_operator(4, 1), complex), atol=1e-12) or True
     return True
+
+
+# ---- definition-based references for the fourteen transform names (long double, O(N^2) per axis) -----------------
+def _resize(x, n, axis):
+    """Truncate or zero-pad x to length n along axis (numpy/scipy semantics for the n / s arguments)."""
+    x = np.asarray(x)
+    cur = x.shape[axis]
+    if n == cur:
+        return x
+    idx = [slice(None)] * x.ndim
+    if n < cur:
+        idx[axis] = slice(0, n)
+        return x[tuple(idx)]
+    shp = list(x.shape)
+    shp[axis] = n
+    out = np.zeros(shp, dtype=x.dtype)
+    idx[axis] = slice(0, cur)
+    out[tuple(idx)] = x
+    return out
+
+
+def _scale(n, inverse, norm):
+    norm = norm or "backward"
+    if norm == "ortho":
+        return 1 / np.sqrt(LD(n))
+    if (norm == "backward") == inverse:
+        return 1 / LD(n)
+    return LD(1)
+
+
+def ref_c2c_axis(x, n, axis, inverse, norm):
+    x = _resize(np.asarray(x).astype(CLD), n, axis)
+    x = np.moveaxis(x, axis, 0)
+    W = dft_matrix(n, +1 if inverse else -1)
+    y = np.tensordot(W, x, axes=(1, 0)) * _scale(n, inverse, norm)
+    return np.moveaxis(y, 0, axis)
+
+
+def _hermitian_full(x, n, axis):
+    """Full length-n spectrum from its n//2+1 non-negative-frequency half (imaginary parts of DC/Nyquist dropped)."""
+    x = np.moveaxis(np.asarray(x).astype(CLD), axis, 0)
+    m = n // 2 + 1
+    x = _resize(x, m, 0)
+    full = np.zeros((n,) + x.shape[1:], dtype=CLD)
+    full[:m] = x
+    full[0] = full[0].real
+    if n % 2 == 0 and n > 0:
+        full[n // 2] = full[n // 2].real
+    for k in range(1, (n + 1) // 2):
+        full[n - k] = np.conj(x[k])
+    return np.moveaxis(full, 0, axis)
+
+
+def ref_transform(name, x, n=None, axis=-1, s=None, axes=None, norm=None):
+    """Reference result of scipy.fft-style transform ``name`` from the DFT definition."""
+    x = np.asarray(x)
+    one_d = name in ("fft", "ifft", "rfft", "irfft", "hfft", "ihfft")
+    if one_d:
+        ax = axis % x.ndim
+        if name in ("fft", "ifft"):
+            n = x.shape[ax] if n is None else n
+            return ref_c2c_axis(x, n, ax, name == "ifft", norm)
+        if name == "rfft":
+            n = x.shape[ax] if n is None else n
+            y = ref_c2c_axis(x.real if np.iscomplexobj(x) else x, n, ax, False, norm)
+            idx = [slice(None)] * x.ndim
+            idx[ax] = slice(0, n // 2 + 1)
+            return y[tuple(idx)]
+        if name == "irfft":
+            n = 2 * (x.shape[ax] - 1) if n is None else n
+            return ref_c2c_axis(_hermitian_full(x, n, ax), n, ax, True, norm).real
+        if name == "hfft":
+            n = 2 * (x.shape[ax] - 1) if n is None else n
+            # hfft(x, n) = irfft(conj(x), n) with the *forward* normalisation
+            inv = {"backward": "forward", None: "forward", "forward": "backward", "ortho": "ortho"}[norm]
+            return ref_c2c_axis(_hermitian_full(np.conj(x), n, ax), n, ax, True, inv).real
+        if name == "ihfft":
+            n = x.shape[ax] if n is None else n
+            inv = {"backward": "forward", None: "forward", "forward": "backward", "ortho": "ortho"}[norm]
+            y = ref_c2c_axis(x.real if np.iscomplexobj(x) else x, n, ax, False, inv)
+            idx = [slice(None)] * x.ndim
+            idx[ax] = slice(0, n // 2 + 1)
+            return np.conj(y[tuple(idx)])
+    # n-dimensional family
+    two = name.endswith("2")
+    if axes is None:
+        axes = (-2, -1) if two else (tuple(range(x.ndim)) if s is None else tuple(range(x.ndim - len(s), x.ndim)))
+    axes = tuple(a % x.ndim for a in axes)
+    kind = name.rstrip("2n")          # fft, ifft, rfft, irfft
+    if s is None:
+        s = [x.shape[a] for a in axes]
+        if kind == "irfft":
+            s[-1] = 2 * (x.shape[axes[-1]] - 1)
+    s = list(s)
+    if kind in ("fft", "ifft"):
+        y = x
+        for a, n_ in zip(axes, s):
+            y = ref_c2c_axis(y, n_, a, kind == "ifft", norm)
+        return y
+    if kind == "rfft":
+        y = ref_transform("rfft", x, n=s[-1], axis=axes[-1], norm=norm)
+        for a, n_ in zip(axes[:-1], s[:-1]):
+            y = ref_c2c_axis(y, n_, a, False, norm)
+        return y
+    if kind == "irfft":
+        y = x
+        for a, n_ in zip(axes[:-1], s[:-1]):
+            y = ref_c2c_axis(y, n_, a, True, norm)
+        return ref_transform("irfft", y, n=s[-1], axis=axes[-1], norm=norm)
+    raise KeyError(name)
